@@ -5,7 +5,7 @@ from .C08 import table
 
 LEVEL = "proof"
 THEOREMS = ["C04_refines", "C04_wf", "C04_total_probability", "C04_base_rate", "C04_mixture_form", "C04_apex",
-            "C04_absolute", "C04_vacuous_antecedent"]
+            "C04_absolute", "C04_vacuous_antecedent", "C04_masses_nonneg_gen", "C04_masses_nonneg_fin", "C04_deduce_masses_nonneg_gen"]
 EXTRA_MODULES = [("SLV.Props.OracleSpec", ("OS_pyhx", "OS_bmin", "OS_apexU", "OS_deduce", "OS_totalProb", "OS_mbr", "OS_allVac", "OS_projQ"))]
 RULE = ("deduce / deduce_with / deduce2 on well-formed antecedents (zero base rates, vacuous, dogmatic, absolute) x conditional "
         "tables (vacuous/dogmatic/mixed, zero entries in the fallback base rate), |X| 2..4, 2-D antecedents 2x2,2x3,3x2,3x3, |Y| 2..3; "
@@ -13,7 +13,14 @@ RULE = ("deduce / deduce_with / deduce2 on well-formed antecedents (zero base ra
         "holds its conditionals BY REFERENCE ([&Simplex;N], MArr1/MArrD1/MArr2/MArrD2 of &Simplex) and entries with equal values are "
         "ONE object; stream with |X| 3..4 (and 2x2, 2x3, 3x2) where the first conditional (or another one) is repeated at later "
         "positions next to at least one different entry, antecedents absolute on each x / vacuous / dogmatic / interior; the harness "
-        "runs the by-value table next to it and the oracle additionally requires bit-equal answers. non-trivial = value returned")
+        "runs the by-value table next to it and the oracle additionally requires bit-equal answers. Variant token `acc` (added with repair "
+        "9ec2d8b): the harness appends whether Opinion::try_new accepts (clones of) the returned values; required (clause "
+        "C04.result_accepted_by_constructor) whenever antecedent, conditionals and fallback base rate are EXACTLY well-formed as "
+        "rationals; the harness' domain sizes (|Y| <= 3, |X| <= 4 resp. 3x3) are far below the sizes (9+ cells) at which the validators' "
+        "own re-summation residue could leave the 4-ulp band. Streams: zero-biased small grids (denominators 4, 8, 16; |X|, |Y| in 2..3; "
+        "random supports, so many zero masses and zero base-rate entries; absolute / vacuous / uncertain antecedents), 2500 per precision "
+        "in the quick tier, and the replay list gen/corpus/clamp_hot.txt (inputs on which the un-repaired crate returned an opinion its own "
+        "constructor rejects, collected by tools/scan/clamp_scan.py). non-trivial = value returned")
 EXHAUSTIVE = {}
 nontrivial = default_nontrivial
 LEVEL_TEXT = ("Theorems for every |X|,|Y| and all rational well-formed inputs (zero base rates allowed): the model's deduce_of equals an "
@@ -66,8 +73,125 @@ def shared_case(rng, fmt):
     return G.line("deduce", fmt, fam + "." + st + ".shared", [n, m], b + [u] + ax + conds)
 
 
+# ---- acceptance by the crate's own checked constructors (variant token `acc`, added with repair 9ec2d8b): before it a belief
+# mass whose exact value is 0 came out as a rounding residue down to -2.5 eps and `Opinion::try_new` rejected the returned opinion.
+# The residue needs a result mass that is exactly 0 (the antecedent's vacuous part sits on the boundary of the sub-simplex of the
+# conditionals): zeros in the operands make that far more likely.
+
+def zb_simplex(rng, n, den, kind=None):
+    """zero-biased (b[n], u) on the grid 1/den: a random support, then a composition with positive parts on it.
+    kind: None (any), 'vac', 'abs' (all mass on one value), 'dog' (u = 0), 'unc' (u > 0)"""
+    if kind == "vac":
+        return [G.Fr(0)] * n, G.Fr(1)
+    if kind == "abs":
+        b = [G.Fr(0)] * n
+        b[rng.randrange(n)] = G.Fr(1)
+        return b, G.Fr(0)
+    for _ in range(100):
+        supp = [i for i in range(n + 1) if rng.random() < 0.55]
+        if kind == "dog":
+            supp = [i for i in supp if i != n]
+        if kind == "unc" and n not in supp:
+            supp.append(n)
+        if supp and len(supp) <= den:
+            break
+    else:
+        supp = [0]
+    c = G.composition(rng, den - len(supp), len(supp))
+    v = [G.Fr(0)] * (n + 1)
+    for i, k in zip(supp, c):
+        v[i] = G.Fr(k + 1, den)
+    return v[:n], v[n]
+
+
+def zb_dist(rng, n, den, positive=False):
+    """zero-biased distribution on the grid 1/den (positive: no zero entry)"""
+    if positive:
+        return G.rand_dist(rng, n, den, positive=True)
+    for _ in range(100):
+        supp = [i for i in range(n) if rng.random() < 0.6]
+        if supp and len(supp) <= den:
+            break
+    else:
+        supp = [0]
+    c = G.composition(rng, den - len(supp), len(supp))
+    v = [G.Fr(0)] * n
+    for i, k in zip(supp, c):
+        v[i] = G.Fr(k + 1, den)
+    return v
+
+
+def zb_cond(rng, n, m, den):
+    out = []
+    for _x in range(n):
+        b, u = zb_simplex(rng, m, den, rng.choice([None, None, None, "unc", "dog", "vac"]))
+        out += b + [u]
+    return out
+
+
+def acc_case(rng, fmt):
+    """deduce / deduce_with with the `acc` token on a zero-biased small grid (denominators 4, 8, 16; |X|, |Y| in 2..3).
+    Half of the cases are built so that a result mass is likely to be EXACTLY zero: the result is
+    b(y) = sum_x b_X(x) b(y|x) + u_X (P(y||a_X) - a_Y(y) u^) and the bracket equals min_x b(y|x) at the value y that attains the apex
+    uncertainty u^; so for a chosen y0 every conditional that carries antecedent belief gets b(y0|x) = 0 (and at least one does),
+    with an uncertain antecedent.  `deduce` (marginal base rate, typically thirds / fifths: not dyadic) is where the float residue
+    of that exact zero appears."""
+    den = rng.choice([4, 4, 8, 8, 16])
+    n, m = rng.choice([2, 3, 3]), rng.choice([2, 3])
+    var = rng.choice(G.FAMS_1D) + "." + rng.choice(["o", "r"]) + ".acc"
+    if rng.random() < 0.5:
+        y0 = rng.randrange(m)
+        b, u = zb_simplex(rng, n, den, rng.choice(["unc", "unc", "unc", "vac"]))
+        ax = zb_dist(rng, n, den)
+        conds = []
+        forced = rng.randrange(n)
+        for x in range(n):
+            for _ in range(50):
+                cb, cu = zb_simplex(rng, m, den, rng.choice([None, None, "unc", "unc", "dog"]))
+                if not (b[x] > 0 or x == forced or rng.random() < 0.5) or cb[y0] == 0:
+                    break
+            else:
+                cb, cu = [G.Fr(0)] * m, G.Fr(1)
+            conds += cb + [cu]
+        if rng.random() < 0.2:
+            ay = zb_dist(rng, m, den, positive=rng.random() < 0.5)
+            return G.line("deduce_with", fmt, var, [n, m], b + [u] + ax + conds + ay)
+        return G.line("deduce", fmt, var, [n, m], b + [u] + ax + conds)
+    b, u = zb_simplex(rng, n, den, rng.choice([None, None, "unc", "unc", "vac", "abs"]))
+    ax = zb_dist(rng, n, den)
+    conds = zb_cond(rng, n, m, den)
+    if rng.random() < 0.35:
+        ay = zb_dist(rng, m, den, positive=rng.random() < 0.5)
+        return G.line("deduce_with", fmt, var, [n, m], b + [u] + ax + conds + ay)
+    return G.line("deduce", fmt, var, [n, m], b + [u] + ax + conds)
+
+
+_HOT = None
+
+
+def hot_cases(fmt, ops):
+    """the operand tuples (gen/corpus/clamp_hot.txt) on which deduce / deduce_with / inverse / abduce / abduce_with returned a value
+    that the crate's own checked constructor rejected BEFORE repair 9ec2d8b, collected by tools/scan/clamp_scan.py: whole small dyadic
+    grids (denominators 4 / 8 / 16) enumerated or sampled against a harness built on the un-repaired crate.  The failure needs a result
+    mass that is exactly zero AND a non-dyadic intermediate (the marginal base rate, a Bayes quotient); its rate on such grids is
+    3e-6 .. 2e-4 per call, so only the enumerated hits give the quick tier teeth against a regression."""
+    global _HOT
+    if _HOT is None:
+        _HOT = []
+        import os
+        fp = os.path.join(os.path.dirname(os.path.dirname(os.path.dirname(os.path.abspath(__file__)))), "gen", "corpus", "clamp_hot.txt")
+        if os.path.exists(fp):
+            with open(fp) as fh:
+                _HOT = [ln.strip() for ln in fh if ln.strip() and not ln.startswith("#")]
+    return [c for c in _HOT if c.split(" ")[1] == fmt and c.split(" ")[0] in ops]
+
+
 def cases(rng, tier):
     out = []
+    for fmt in ("f64", "f32"):
+        out += hot_cases(fmt, ("deduce", "deduce_with"))
+        for _ in range(2500 if tier == "quick" else 60000):
+            out.append(acc_case(rng, fmt))
     for fmt in ("f64", "f32"):
         N = 1200 if tier == "quick" else 40000
         for _ in range(N // 3):
